@@ -614,3 +614,81 @@ Proof.
   - exfalso. exact (spec_pct_nonempty _ _ E5).
   - rewrite !norm_pct_spec, E5. reflexivity.
 Qed.
+
+(* ---------- what the parser produces lies in the domain of the key theorems ---------- *)
+Definition byte_range (s : bytes) : Prop := Forall (fun c => 0 <= c < 256) s.
+
+Lemma unescape_pct_wf s : forall k, unescape_path k s <> None -> pct_wf k s = true.
+Proof.
+  induction s as [|c r IH]; intros k H; [reflexivity|]. cbn [unescape_path pct_wf] in *.
+  destruct k as [|k]; [|apply IH, H].
+  destruct (c =? 37) eqn:E.
+  - destruct r as [|h1 [|h2 t]]; try (exfalso; apply H; reflexivity).
+    destruct (is_hex h1 && is_hex h2) eqn:Eh; [|exfalso; apply H; reflexivity]. cbn [andb].
+    apply IH. intros Hn. apply H. rewrite Hn. reflexivity.
+  - apply IH. intros Hn. apply H. rewrite Hn. reflexivity.
+Qed.
+
+Lemma hex_digit_is_hex n : 0 <= n < 16 -> is_hex (hex_digit n) = true.
+Proof. intros H. apply upper_hex_is_hex. apply hex_digit_upper. exact H. Qed.
+
+Lemma escape_path_pct_wf raw : byte_range raw -> pct_wf 0 (escape_path raw) = true.
+Proof.
+  unfold escape_path. induction 1 as [|c r Hc _ IH]; [reflexivity|]. cbn [flat_map].
+  destruct (should_escape_path c) eqn:E.
+  - unfold pct_upper. cbn [app pct_wf Z.eqb Pos.eqb].
+    rewrite (hex_digit_is_hex (c / 16)) by (split; [apply Z.div_pos; lia|apply Z.div_lt_upper_bound; lia]).
+    rewrite (hex_digit_is_hex (c mod 16)) by (apply Z.mod_pos_bound; lia).
+    cbn [andb]. exact IH.
+  - assert (Hne : c <> 37) by (intros ->; vm_compute in E; discriminate).
+    cbn [app pct_wf]. replace (c =? 37) with false by lia. exact IH.
+Qed.
+
+Lemma avoids_contains_false x s : avoids x s -> contains_byte x s = false.
+Proof.
+  induction 1 as [|c s Hc _ IH]; [reflexivity|]. cbn [contains_byte]. rewrite IH. replace (c =? x) with false by lia. reflexivity.
+Qed.
+
+Lemma escape_path_no_question raw : contains_byte 63 (escape_path raw) = false.
+Proof.
+  apply avoids_contains_false. unfold escape_path. induction raw as [|c r IH]; [constructor|]. cbn [flat_map].
+  apply Forall_app. split; [|exact IH]. destruct (should_escape_path c) eqn:E.
+  - unfold pct_upper. constructor; [lia|]. constructor; [apply hex_digit_not|]. constructor; [apply hex_digit_not|constructor].
+  - constructor; [|constructor]. intros ->. vm_compute in E. discriminate.
+Qed.
+
+Lemma valid_encoded_no_question p : valid_encoded_path p = true -> contains_byte 63 p = false.
+Proof.
+  unfold valid_encoded_path. induction p as [|c r IH]; [reflexivity|]. cbn [forallb contains_byte]. intros H.
+  apply Bool.andb_true_iff in H as [Hc Hr]. rewrite (IH Hr).
+  assert (Hne : c <> 63) by (intros ->; vm_compute in Hc; discriminate).
+  replace (c =? 63) with false by lia. reflexivity.
+Qed.
+
+(* setPath + EscapedPath: the result has well-formed escapes and no raw '?'; it begins like its argument *)
+Lemma unescape_range s : forall k raw, byte_range s -> unescape_path k s = Some raw -> byte_range raw.
+Proof.
+  induction s as [|c r IH]; intros k raw Hs H; cbn [unescape_path] in H; [injection H as <-; constructor|].
+  inversion Hs as [|? ? Hc Hr]; subst. destruct k as [|k]; [|eapply IH; eassumption].
+  destruct (c =? 37) eqn:E.
+  - destruct r as [|h1 [|h2 t]]; try discriminate. destruct (is_hex h1 && is_hex h2) eqn:Eh; [|discriminate].
+    destruct (unescape_path 2 (h1 :: h2 :: t)) as [raw'|] eqn:Eu; [|discriminate]. injection H as <-.
+    apply Bool.andb_true_iff in Eh as [E1 E2]. pose proof (from_hex_range _ E1). pose proof (from_hex_range _ E2).
+    constructor; [lia|eapply IH; eassumption].
+  - destruct (unescape_path 0 r) as [raw'|] eqn:Eu; [|discriminate]. injection H as <-. constructor; [exact Hc|eapply IH; eassumption].
+Qed.
+
+Lemma escaped_path_of_wf p0 p : byte_range p0 -> escaped_path_of p0 = Some p ->
+  pct_wf 0 p = true /\ contains_byte 63 p = false /\
+  (match p0 with [] => True | c :: _ => c = 47 end -> match p with [] => true | c :: _ => c =? 47 end = true).
+Proof.
+  intros Hr H. unfold escaped_path_of in H. destruct (unescape_path 0 p0) as [raw|] eqn:Eu; [|discriminate].
+  injection H as <-. destruct (valid_encoded_path p0) eqn:Ev.
+  - split; [apply unescape_pct_wf; congruence|]. split; [apply valid_encoded_no_question, Ev|].
+    destruct p0; [reflexivity|]. intros ->. reflexivity.
+  - split; [apply escape_path_pct_wf; eapply unescape_range; eassumption|]. split; [apply escape_path_no_question|].
+    destruct p0 as [|c r]; [cbn in Eu; injection Eu as <-; reflexivity|]. intros ->.
+    cbn [unescape_path] in Eu. replace (47 =? 37) with false in Eu by reflexivity.
+    destruct (unescape_path 0 r); [|discriminate]. injection Eu as <-. reflexivity.
+Qed.
+
